@@ -5,8 +5,52 @@ SPEC = dict(
     driver="C23",
     harness="c23.cpp",
     theorems=[
+        # class invariant (coefficients < p, no trailing zero) established / preserved
+        "SymVerif.C23.fromVec_wf", "SymVerif.C23.add_wf", "SymVerif.C23.sub_wf", "SymVerif.C23.neg_wf",
+        "SymVerif.C23.mul_wf", "SymVerif.C23.mulAssign_wf", "SymVerif.C23.sqr_wf", "SymVerif.C23.addConst_wf",
+        "SymVerif.C23.scale_wf", "SymVerif.C23.diff_wf", "SymVerif.C23.pow_wf", "SymVerif.C23.monic_wf",
+        "SymVerif.C23.quo_wf", "SymVerif.C23.rem_wf", "SymVerif.C23.gcd_wf", "SymVerif.C23.powMod_wf",
+        "SymVerif.C23.composeMod_wf", "SymVerif.C23.toPoly_injective",
+        # functional correctness against Polynomial (ZMod p)
+        "SymVerif.C23.add_spec", "SymVerif.C23.sub_spec", "SymVerif.C23.neg_spec", "SymVerif.C23.mul_spec",
+        "SymVerif.C23.mulAssign_spec", "SymVerif.C23.sqr_spec", "SymVerif.C23.addConst_spec",
+        "SymVerif.C23.scale_spec", "SymVerif.C23.pow_spec", "SymVerif.C23.eval_spec'", "SymVerif.C23.diff_spec",
+        "SymVerif.C23.monic_spec", "SymVerif.C23.divmod_spec", "SymVerif.C23.quo_rem_spec'",
+        "SymVerif.C23.opDivmod_error", "SymVerif.C23.gcd_spec", "SymVerif.C23.lcm_spec", "SymVerif.C23.isSqf_spec",
+        "SymVerif.C23.pow_mod_spec", "SymVerif.C23.compose_mod_spec", "SymVerif.C23.addConstOrig_defect",
+        # proven-sound certificates evaluated by the driver on every factorisation line
+        "SymVerif.C23.checkMulBack_sound", "SymVerif.C23.irreducibleBrute_sound",
+        "SymVerif.C23.factor_certificate_partial",
     ],
-    rule="gf <p> <op> <polys>: distinct = distinct op lines; non-trivial = all",
-    not_covered=[],
-    assumptions=[],
+    partial=["SymVerif.C23.factor_certificate_partial"],
+    rule="one op line = one GaloisFieldDict operation 'gf <p> <op> <coefficient vectors>' (operands go through from_vec); "
+         "distinct = distinct op lines; non-trivial = every line (each calls the library once and evaluates the "
+         "schoolbook oracle).  Tags: exh-bin-pN / exh-lite-pN / exh-un-pN = exhaustive enumeration for p in {2,3,5,7} "
+         "(thorough: all pairs of polynomials of degree <= 6/4/2/2 for the 9 binary ops, all pairs of degree <= 3 for "
+         "p=5 on mul/divmod/gcd, all polynomials of degree <= 9/5/4/4 for the unary ops incl. sqf_list and factor); "
+         "smp-* = samples of the same spaces (quick); rnd-bigp / rnd-smallp = random primes < 2^16 (or 2..13), degree <= 30 "
+         "(<= 12 for p=2); *-common = planted common factor (gcd/lcm/exact division); *-planted = product of random "
+         "monic polynomials with multiplicities incl. multiples of p (sqf_list/factor); *-sqf = monic square-free "
+         "(ddf/edf entry points); divzero, compose-zero-intermediate, const, eval-negative, fromvec, pow-small = boundary cases",
+    exhaustive={"thorough": True, "quick": False},
+    not_covered=[
+        "non-prime moduli (mp_invert is modelled by Fermat's little theorem; generator emits primes only)",
+        "operands with different moduli ('field must be same' exception)",
+        "p = 2 factor degree >= 32 in gf_edf_zassenhaus ('1 << (n*N-1)' overflows; model returns E:range, generator stays <= 12)",
+        "termination / success probability of the randomised equal-degree splitting (the model takes fuel and an explicit random stream; only the final factor sets are compared, they are unique)",
+        "gf_multi_eval, gf_rshift, GaloisField (the Basic wrapper: hash/compare/get_args), operator/=(integer)",
+        "that gf_sqf_list / gf_factor / gf_zassenhaus / gf_shoup always return outputs passing the certificates (C23_full is stated, not proved); they are certificate-checked on every generated case",
+        "irreducibility certificate only when every factor needs <= 3000 trial divisions (flag #irr?) - the harness oracle uses Rabin's test there",
+    ],
+    assumptions=[
+        "mp_invert(x, p) == x^(p-2) mod p for prime p and p not dividing x (GMP)",
+        "mp_fdiv_r is the floor remainder; integer_class %= is the truncating remainder (GMP mpz_tdiv_r)",
+        "std::ceil(std::sqrt(n/2)) for n <= 2^20 equals the integer ceiling square root (gf_ddf_shoup)",
+        "two findings (fixed in /repo by 740fba7 and bb28e73) are modelled as fixed: operator+=(integer_class) on the zero polynomial, _gf_trace_map receiver/argument order",
+    ],
+    level_text="proof for ring ops, eval, diff, monic, divmod/quo/rem, gcd, lcm, pow, pow_mod, compose_mod and the class invariant; "
+               "factorisation: proven-sound certificate checks (multiply-back, monic, brute-force irreducibility) evaluated on every generated case",
+    level_note="C23_full (gf_factor always returns a correct factorisation) is stated as a def and not proved",
+    technique="Lean 4 model over List Nat mirroring fields.cpp; abstraction toPoly into Mathlib's Polynomial (ZMod p); "
+              "loop-invariant proof of the in-place division loop; correspondence testing against the real library with an independent schoolbook oracle",
 )
